@@ -10,6 +10,7 @@ CONSTANTS
   Payloads <- MC_Payloads
   Keys <- MC_Keys
   Deviations = {}
+  Variant = "std"
   Small = FALSE
 INIT Init
 NEXT Next
